@@ -216,27 +216,6 @@ def oracle_range(case, by, n, cells=None):
     return bad
 
 
-def inventory(by, t, cells, q):
-    return sum(by[t][c][-1][q] for c in cells if c in by[t])
-
-
-def oracle_closed_inventory(by, cells, quants, steps):
-    """closed diffusion-only column: inventory of every quantity constant over all shifts (relative 1e-9)"""
-    bad = []
-    if 0 not in by:
-        return bad
-    for q in quants:
-        inv0 = inventory(by, 0, cells, q)
-        sc = scale_of(q, {c: by[0][c] for c in cells if c in by[0]}) if q == "cb" else abs(inv0)
-        for t in steps:
-            if t not in by or any(c not in by[t] for c in cells):
-                continue
-            inv = inventory(by, t, cells, q)
-            if abs(inv - inv0) > TOL * max(sc, 1e-300):
-                bad.append((q, t, inv0, inv, (inv - inv0) / max(sc, 1e-300)))
-    return bad
-
-
 def oracle_shift(by, n, flow, shifts, quants):
     """pure advection: cell i after a shift holds the previous solution of its upstream neighbour"""
     bad = []
@@ -339,19 +318,87 @@ def judge_modelled(ctx, case, res, plan, model_lines, hist):
     return probs
 
 
-def direct_oracles(case, res, hist, code_nmix):
+def inv_funcs(case):
+    """inventory quantities of a cell row: dissolved (+ solids when present)"""
+    fs = {}
+    if case.get("solids") == "exchange":
+        for e in gt.ELEMENTS:
+            fs["inv_" + e] = (lambda d, e=e: d["m_" + e] + d["x_" + e])
+    elif case.get("solids") == "calcite":
+        for e in gt.ELEMENTS:
+            fs["inv_" + e] = (lambda d, e=e: d["m_" + e] + (d["s_calcite"] if e == "Ca" else 0.0))
+        fs["inv_C"] = lambda d: d["m_C"] + d["s_calcite"]
+    else:
+        for q in QUANT:
+            fs[q] = (lambda d, q=q: d[q])
+    return fs
+
+
+def col_inventory(by, t, cells, f):
+    return sum(f(by[t][c][-1]) for c in cells)
+
+
+def charge_scale(by, cells):
+    z = dict(gt.CATIONS + gt.ANIONS)
+    return max(sum(abs(by[0][c][-1]["m_" + e]) * z[e] for e in gt.ELEMENTS) for c in cells if c in by[0]) or 1.0
+
+
+def oracle_inventory(case, by, cells, shifts, flux=None):
+    """conservation: flux=None → closed column, inventory constant; flux=(inflow cell, outflow cell) → per step
+    inventory(t) = inventory(t−1) + dissolved(inflow solution) − dissolved(outflow cell at t−1)."""
+    bad = []
+    fs = inv_funcs(case)
+    if 0 not in by or any(c not in by[0] for c in cells):
+        return None
+    for name, f in fs.items():
+        inv0 = col_inventory(by, 0, cells, f)
+        # scale: the inventory, the largest cell value, and what the boundary solutions can bring in
+        q0 = name if name in QUANT else "m_" + name[4:]
+        sc = charge_scale(by, list(by[0])) * len(cells) if name == "cb" else \
+            max(abs(inv0), max(abs(f(by[0][c][-1])) for c in cells), max(abs(d[-1].get(q0, 0.0)) for d in by[0].values()))
+        prev = inv0
+        for t in range(1, shifts + 1):
+            if t not in by or any(c not in by[t] for c in cells):
+                return None
+            inv = col_inventory(by, t, cells, f)
+            exp = prev
+            if flux is not None:
+                cin, cout = flux
+                q = name if name in QUANT else "m_" + name[4:]
+                exp = prev + by[0][cin][-1][q] - by[t - 1][cout][-1][q]
+            if abs(inv - exp) > TOL * max(sc, 1e-300):
+                bad.append((name, t, exp, inv, (inv - exp) / max(sc, 1e-300)))
+                break
+            prev = inv
+    return bad
+
+
+def symmetric_plan(plan):
+    """model weights: m1[i] == m[i+1] for all interior faces"""
+    W = plan["W"]
+    return all(W[i][2] == W[i + 1][0] for i in range(len(W) - 1))
+
+
+def direct_oracles(case, res, hist, code_nmix, plan=None):
     """the property statement evaluated on the implementation's own output; returns list of (kind, detail)"""
     out = []
     heads, by = table(res)
     n = case["n"]
+    shifts = case["shifts"]
+    allq = QUANT + ["water"] + ["c_" + e for e in gt.ELEMENTS]
     if case["kind"] == "advection":
-        bad = oracle_shift(by, n, 1, case["shifts"], QUANT + ["water"] + ["c_" + e for e in gt.ELEMENTS])
+        bad = oracle_shift(by, n, 1, shifts, allq)
         hist["oracle_shift"] += 1
         if bad:
             out.append(("oracle-shift", bad[:3]))
         return out
     su = reader_setup(case)
     plain = not case.get("mcd") and not case.get("stag") and not case.get("solids")
+    if code_nmix == 0 and su["flow"] == 0 and not case.get("stag"):
+        return out                                     # nothing moves, nothing is punched
+    mobile = list(range(1, n + 1))
+    cells = mobile + [c for c in by.get(0, {}) if c > n + 1]
+    # (1) range: single diffusion coefficient, no reactive solids
     if not case.get("mcd") and not case.get("solids"):
         bad = oracle_range(case, by, n)
         if bad is not None:
@@ -359,19 +406,31 @@ def direct_oracles(case, res, hist, code_nmix):
             if bad:
                 out.append(("oracle-range", bad[:3]))
     equal = len(set(su["L"])) == 1
-    if su["flow"] == 0 and su["bf"] == 2 and su["bl"] == 2 and (equal or case.get("mcd")) and not case.get("solids"):
-        cells = list(range(1, n + 1))
-        if case.get("stag"):
-            cells += [c for c in by.get(0, {}) if c > n + 1]
-        bad = oracle_closed_inventory(by, cells, QUANT, range(1, case["shifts"] + 1))
-        hist["oracle_closed_inventory"] += 1
-        if bad:
-            out.append(("oracle-inventory", bad[:3]))
+    nodiff = su["diffc"] * su["timest"] == 0
+    # (2) closed diffusion-only column: inventory constant
+    if su["flow"] == 0 and su["bf"] == 2 and su["bl"] == 2 and (equal or case.get("mcd")):
+        bad = oracle_inventory(case, by, cells, shifts)
+        if bad is not None:
+            hist["oracle_closed_inventory"] += 1
+            if bad:
+                out.append(("oracle-inventory", bad[:3]))
+    # (3) pure advection: exact shift
     if plain and su["flow"] != 0 and code_nmix == 0:
-        bad = oracle_shift(by, n, su["flow"], case["shifts"], QUANT + ["water"] + ["c_" + e for e in gt.ELEMENTS])
+        bad = oracle_shift(by, n, su["flow"], shifts, allq)
         hist["oracle_shift"] += 1
         if bad:
             out.append(("oracle-shift", bad[:3]))
+    # (4) flow with flux boundaries: inventory(t) = inventory(t-1) + inflow - outflow ("moved, never created or lost")
+    if su["flow"] != 0 and su["bf"] == 3 and su["bl"] == 3 and (equal or (nodiff and not case.get("mcd"))) and not case.get("implicit"):
+        flux = (0, n) if su["flow"] > 0 else (n + 1, 1)
+        if flux[0] in by.get(0, {}):
+            bad = oracle_inventory(case, by, cells, shifts, flux)
+            if bad is not None:
+                ds = set(su["D"])
+                mixed_zero = 0 in ds and len(ds) > 1
+                hist["oracle_flux_balance" + ("_mixed_zero_disp" if mixed_zero else "")] += 1
+                if bad:
+                    out.append(("oracle-flux-balance", bad[:3]))
     return out
 
 
@@ -485,12 +544,13 @@ def check_cases(ctx, exe, cases, hist, stop_on_first=True):
         p = cases[i][1]
         lines = mlines.get(key, [])
         probs = []
+        plan = None
         if c["kind"] == "transport":
             plan = parse_plan(lines) if force is None else parse_plan(lines[lines.index([l for l in lines if l.startswith("PLAN")][-1]):])
             probs += judge_modelled(ctx, c, res, plan, lines, hist)
         else:
             probs += judge_advection(c, res, lines, hist)
-        probs += direct_oracles(c, res, hist, res["nmix_after"])
+        probs += direct_oracles(c, res, hist, res["nmix_after"], plan if c["kind"] == "transport" else None)
         note_hist(c, res, hist)
         if probs:
             problems.append((c, probs, res))
@@ -538,6 +598,8 @@ def note_hist(c, res, hist):
     hist["bc_%d%d" % tuple(c["bc"])] += 1
     hist["cells_%s" % ("1" if c["n"] == 1 else "2-5" if c["n"] <= 5 else "6-15" if c["n"] <= 15 else "16-40")] += 1
     k = res["nmix_after"]
+    if k == 0 and c["flow"] == "diffusion_only":
+        hist["nmix_0_noflow"] += 1
     hist["nmix_%s" % ("0" if k == 0 else "1" if k == 1 else "2-5" if k <= 5 else "6-50" if k <= 50 else ">50")] += 1
     su = reader_setup(c)
     hist["lengths_%s" % ("equal" if len(set(su["L"])) == 1 else "unequal")] += 1
@@ -552,6 +614,82 @@ class Hist(dict):
         return 0
 
 
+def is_variant(c):
+    return bool(c.get("mcd") or c.get("stag") or c.get("solids") or c.get("implicit"))
+
+
+def check_variants(ctx, exe, cases, hist):
+    """multicomponent diffusion / implicit / stagnant zones / reactive solids: no model, the property's oracles on
+    the real outputs only"""
+    inputs = [(str(i), gt.render(c)) for i, c in enumerate(cases)]
+    results = run_parallel(ctx, exe, inputs, chunk=2)
+    problems = []
+    for i, c in enumerate(cases):
+        res = results[str(i)]
+        if res.get("crash"):
+            problems.append((c, [("crash", str(res)[:300])], None))
+            continue
+        hist["variant_" + c.get("variant", "?")] += 1
+        if res["ret"] != 0:
+            hist["variant_runs_with_errors"] += 1
+            continue
+        if "added in total to the system" in res["warn"]:
+            hist["variant_mcd_negative_conc_balancing"] += 1
+        hist["variant_judged"] += 1
+        probs = direct_oracles(c, res, hist, res["nmix_after"], None)
+        if probs:
+            problems.append((c, probs, res))
+    return problems
+
+
+def shrink_case(ctx, exe, c, kinds):
+    """smaller case with the same kind of problem: fewer shifts, then fewer solutes"""
+    def fails(cc):
+        h = Hist()
+        if is_variant(cc):
+            pr = check_variants(ctx, exe, [cc], h)
+        else:
+            pr = check_cases(ctx, exe, [(cc, model_plans(ctx, [cc]).get(0))], h)
+        return any(k in kinds for _, ps, _ in pr for k, _ in ps)
+    cur = c
+    for sh in range(1, c["shifts"]):
+        cc = dict(cur, shifts=sh)
+        if fails(cc):
+            cur = cc
+            break
+    return cur
+
+
+def report(ctx, exe, problems, limit=3):
+    done = 0
+    for c, probs, res in problems:
+        fk = [k for k, _ in probs if k.startswith("finding:")]
+        rest = [(k, d) for k, d in probs if not k.startswith("finding:")]
+        for k in sorted(set(fk)):
+            key = k.split(":", 1)[1]
+            d = [d for kk, d in probs if kk == k][0]
+            ctx.finding(key, "column inventory changes although nothing enters or leaves: %s" % (str(d)[:300]),
+                        {"case": c, "input": gt.render(c)})
+        if rest and done < limit:
+            done += 1
+            kinds = sorted({k for k, _ in rest})
+            try:
+                c2 = shrink_case(ctx, exe, c, set(kinds))
+            except Exception:
+                c2 = c
+            ctx.violation("C11 %s: %s" % (",".join(kinds), str(rest[0][1])[:300]),
+                          {"case": c2, "input": gt.render(c2), "problems": [(k, str(d)[:400]) for k, d in rest[:6]]})
+
+
+RULE = ("columns from tools/gens/transport.py: 1-40 cells, one/equal/unequal/short length lists, zero/equal/unequal/"
+        "some-zero/short dispersivity lists, D in {0, 0.3e-9, 1e-9, random 1e-11..1e-6}, time step in {0,1,3600,86400,random}, "
+        "1-30 shifts, forward/back/diffusion_only, all 9 boundary pairs, correct_disp on/off, random conservative tracer "
+        "solutions (Na K Li Ca Mg Cl Br; balanced or slightly unbalanced; water 1 kg or random), optional boundary solutions; "
+        "ADVECTION keyword cases. Every plain case: reader mirror vs engine set-up, nmix + every Dispersion_mix_map entry "
+        "vs model, every cell/step/quantity vs transportRun, direct oracles. Variants (multi_d, implicit, stagnant, exchange, "
+        "calcite): direct oracles only. distinct_nontrivial = cases in which at least one sub-mix or shift changed the column.")
+
+
 def run(ctx):
     global DB
     import vlib
@@ -560,23 +698,47 @@ def run(ctx):
     ctx.build_lib()
     exe = ctx.build_harness("ph_transport")
     hist = Hist()
-    nplain = ctx.n(60, 1200)
-    budget = ctx.n(3000, 12000)
+    nplain = ctx.n(400, 6000)
+    nvar = ctx.n(120, 1500)
+    budget = ctx.n(4000, 15000)
     if not ok:
-        nplain, budget = 600, 6000
-    cases = gen_cases(ctx, nplain, budget)
-    ctx.log("generated %d plain cases" % len(cases))
-    problems = check_cases(ctx, exe, cases, hist)
-    for c, probs, res in problems[:3]:
-        kinds = sorted({k for k, _ in probs})
-        ctx.violation("C11 %s: %s" % (",".join(kinds), probs[0][1]), {"case": c, "problems": [(k, str(d)[:400]) for k, d in probs[:6]]})
-    ctx.cov["evaluations"] = hist["cases"]
-    ctx.cov["distinct_nontrivial"] = hist["cases"] - hist["nmix_0"]
+        nplain, nvar, budget = 3000, 600, 8000
+    problems = []
+    done = 0
+    chunk = 500
+    # corpus: minimised past findings, always replayed first and judged like every other case
+    corpus = gt.corpus()
+    cplans = model_plans(ctx, corpus)
+    problems += check_cases(ctx, exe, [(c, cplans.get(i)) for i, c in enumerate(corpus)], hist)
+    hist["corpus_cases"] = len(corpus)
+    while done < nplain and not [p for p in problems if any(not k.startswith("finding:") for k, _ in p[1])]:
+        cases = gen_cases(ctx, min(chunk, nplain - done), budget)
+        if not cases:
+            break
+        done += len(cases)
+        problems += check_cases(ctx, exe, cases, hist)
+        if done <= chunk and cases:
+            ctx.sample({"plain_case_input": gt.render(cases[0][0])[:1200]})
+        ctx.log("plain cases checked: %d, problems: %d" % (done, len(problems)))
+    # variants derived from fresh plain columns (cheap ones)
+    vdone = 0
+    while vdone < nvar and not [p for p in problems if any(not k.startswith("finding:") for k, _ in p[1])]:
+        base = gen_cases(ctx, min(chunk, nvar - vdone), budget // 4)
+        vs = [gt.variant(ctx.rng, c) for c, _ in base if c["kind"] == "transport"]
+        if not vs:
+            break
+        vdone += len(vs)
+        problems += check_variants(ctx, exe, vs, hist)
+        if vdone <= chunk:
+            ctx.sample({"variant_case_input": gt.render(vs[0])[:1200]})
+        ctx.log("variant cases checked: %d, problems: %d" % (vdone, len(problems)))
+    report(ctx, exe, problems)
+    ctx.cov["evaluations"] = hist["cases"] + hist["variant_judged"]
+    ctx.cov["distinct_nontrivial"] = hist["cases"] - hist["nmix_0_noflow"] + hist["variant_judged"]
     ctx.cov["traces_validated_against_impl"] = hist["cases"]
-    ctx.cov["histogram"] = dict(hist)
-    ctx.cov["rule"] = "random column set-ups (see tools/gens/transport.py)"
-    if cases:
-        ctx.sample({"input": gt.render(cases[0][0])[:1500]})
+    ctx.cov["histogram"] = dict(sorted(hist.items()))
+    ctx.cov["rule"] = RULE
+    ctx.cov["tolerances"] = {"mixing factors (relative)": MIXTOL, "cell values / inventories (relative to column scale)": TOL}
     if not ok and not ctx.violations:
         ctx.violation("proof obligation of C11 no longer checks and no failing input was found",
                       {"broken": ctx.proof_broken}, found_input=False)
@@ -593,17 +755,34 @@ def replay(ctx, data):
     exe = ctx.build_harness("ph_transport")
     c = data["case"]
     hist = Hist()
-    plans = model_plans(ctx, [c])
-    problems = check_cases(ctx, exe, [(c, plans.get(0))], hist)
+    if is_variant(c):
+        problems = check_variants(ctx, exe, [c], hist)
+    else:
+        problems = check_cases(ctx, exe, [(c, model_plans(ctx, [c]).get(0))], hist)
     for c, probs, res in problems:
-        print("REPLAY problems:", probs[:6])
-        ctx.violation("C11 replay: %s" % probs[0][1], {"case": c, "problems": [(k, str(d)[:400]) for k, d in probs[:6]]})
+        print("REPLAY problems:", [(k, str(d)[:300]) for k, d in probs[:6]])
+    report(ctx, None, [(c, probs, None) for c, probs, _ in problems])
     if not problems:
         print("REPLAY: no problem reproduced")
 
 
 MANIFEST = dict(
-    technique="Lean 4 theorems on a Rat model of init_mix / sub-mix / shift; mid-run correspondence of mixing factors; end-to-end differential run; direct oracles",
-    text="",
-    note="",
+    technique="Lean 4 theorems on a Rat model of init_mix / sub-mix / shift (induction over cells, sub-mixes, shifts); "
+              "mid-run correspondence of Dispersion_mix_map and nmix through the BASIC callback; end-to-end differential "
+              "run against transportRun; direct conservation / exact-shift / range oracles on real outputs",
+    text="Theorems (Properties/C11.lean, all column set-ups, any number of shifts and sub-mixes): weights_convex (weights of "
+         "init_mix non-negative, sum 1, self > 1/3), bounded_mixing (max/min principle), closed_inventory_constant "
+         "(diffusion only, closed ends, equal lengths), advective_shift_exact_forward/back, pure_advection_nmix_zero/"
+         "pure_advection_step, advection_keyword_exact, flux_inventory_balance_partial (+ stale_dav_breaks_symmetry, "
+         "stale_dav_inventory_witness: the hypothesis 'no zero dispersivity' cannot be dropped, the code's stale local dav). "
+         "Correspondence on every run: reader set-up mirror (bitwise), nmix and every mixing factor (model exact over the "
+         "rationals of the decimal inputs, compared as doubles at 1e-13 relative), every cell x step x quantity "
+         "(element moles, total H, total O, charge balance) vs transportRun at 1e-9 of the column scale. Obligations over "
+         "generated data only: the oracles for multi_d / implicit / stagnant / reactive solids.",
+    note="Trusted: Lean kernel; g++ harness with friend access and SetBasicCallback; Python reader mirror (short lists "
+         "repeated, closed->flux with flow) and tolerance logic; phreeqc.dat speciation is not modelled (only the linear "
+         "transport of totals; 'speciation conserves the input totals' is observed, not proved). Partial: no model of "
+         "multi_D / diffuse_implicit / mix_stag / heat transport (oracles only, runs with ERROR are counted not judged); "
+         "double rounding of floor(1.5*maxmix) at exact integers is accepted either way (counted as nmix_rounding_boundary); "
+         "range oracle is evaluated on concentrations with a 1e-9 slack.",
 )
